@@ -51,8 +51,13 @@
                                  SetCurrentBlock executed) and window 2 (SetCurrentBlock executed … Context.Flush
                                  completed): recovery = the state before or the completed promotion, incl. candidates (_partial)
     stable_after_crash_refuted, pointer_moved_context_not_flushed_refuted, torn_batch_refuted            (refutations, current code)
-    recover_idempotent           record level only: the writer re-stored a prefix, then another restart; a crash
-                                 inside one BitCask.Put and torn LevelDB writes are NOT modelled
+    recover_idempotent           record level only: the writer re-stored a prefix, then another restart; torn LevelDB
+                                 writes are NOT modelled
+
+  Bitcask level — a crash INSIDE one BitCask.Put (data file written at the cursor / LevelDB position / LevelDB cursor)
+  and during the redelivery: model `LemoModel.Bitcask`, theorems in LemoProofs/C08Bitcask.lean (which imports this
+  file): bitcask_put_crash_invariant, bitcask_put_crash_safe, bitcask_idle_keys_readable,
+  bitcask_redelivery_completes (full, single data file < 2 GiB); bitcask_append_refuted (variant O_APPEND).
 
   NOT covered by any theorem (oracles only, see props/C08.json `partial`): ancestors by hash/height, contract code,
   trie nodes, candidate top; engine-level restart equivalence (InsertBlock of a restarted vs a continuous node).
